@@ -223,6 +223,49 @@ func (x *c15run) one(rec *c15rec, cmd string, flags []string, locstr string, r *
 		c.Count(enc, false)
 		return
 	}
+	// cross-check of the resized regions against the spliced-coordinate model
+	// (C08's oracle, applied to the very locators this run uses): the regions of
+	// the bare specifier, windowed by the model, must cover the same positions
+	// in the same order as the regions the library returns for X@M.
+	if at := strings.LastIndex(locstr, "@"); at > 0 {
+		if kind, p, q, ok := c15ParseMod(locstr[at+1:]); ok {
+			var baseRegs gts.Regions
+			if pn, _, _, _ := fw.Guard(func() {
+				if bl, err := gts.AsLocator(locstr[:at]); err == nil {
+					baseRegs = bl(rec.seq)
+				}
+			}); !pn && len(baseRegs) == len(regs) {
+				for i := range regs {
+					bs := regionSegs(baseRegs[i])
+					lo, hi := model.ModWindow(kind, p, q, model.SplicedLen(bs))
+					var want, got []int
+					for k := lo; k < hi; k++ {
+						x, _ := model.SplicedPos(bs, k)
+						want = append(want, x)
+					}
+					gs := regionSegs(regs[i])
+					for k := 0; k < model.SplicedLen(gs); k++ {
+						x, _ := model.SplicedPos(gs, k)
+						got = append(got, x)
+					}
+					okr := fmt.Sprint(want) == fmt.Sprint(got)
+					if okr && lo == hi {
+						okr = false
+						for _, a := range model.SplicedGap(bs, lo) {
+							if a == regs[i].Head() {
+								okr = true
+							}
+						}
+					}
+					if !okr {
+						c.Count(enc, true)
+						c.Violate("located-regions-differ-from-model", enc, fmt.Sprintf("region %d of %s windowed [%d,%d): positions %v", i, locstr, lo, hi, want), fmt.Sprintf("%v (head %d)", got, regs[i].Head()))
+						return
+					}
+				}
+			}
+		}
+	}
 	segs := make([][]model.DSeg, len(regs))
 	heads := make([]int, len(regs))
 	inRange := true
@@ -623,6 +666,44 @@ func (x *c15run) one(rec *c15rec, cmd string, flags []string, locstr string, r *
 			}
 		}
 	}
+}
+
+// c15ParseMod reads the modifier spellings c15Locator produces.
+func c15ParseMod(m string) (kind string, p, q int, ok bool) {
+	num := func(t string) (int, bool) {
+		if t == "" {
+			return 0, true
+		}
+		var n int
+		if _, err := fmt.Sscanf(t, "%d", &n); err != nil {
+			return 0, false
+		}
+		return n, true
+	}
+	end := func(t string) (byte, int, bool) {
+		if t == "" || (t[0] != '^' && t[0] != '$') {
+			return 0, 0, false
+		}
+		n, ok := num(t[1:])
+		return t[0], n, ok
+	}
+	if i := strings.Index(m, ".."); i >= 0 {
+		a, pa, ok1 := end(m[:i])
+		b, pb, ok2 := end(m[i+2:])
+		if !ok1 || !ok2 {
+			return "", 0, 0, false
+		}
+		switch string([]byte{a, b}) {
+		case "^$", "^^", "$$":
+			return string([]byte{a, b}), pa, pb, true
+		}
+		return "", 0, 0, false
+	}
+	a, pa, ok1 := end(m)
+	if !ok1 {
+		return "", 0, 0, false
+	}
+	return string([]byte{a}), pa, 0, true
 }
 
 func keysOf(m map[int]bool) []int {
